@@ -483,4 +483,14 @@ def units(tier):
     # which of the two layouts is used is decided by the version-order predicates (switch at 443): their contract - a strict
     # total order by publication position over every known version - is claimed here too
     ou.prop, ou.name = 'C04', 'C04.version-order'
-    return [PositionSend(), PositionMonotone(), PositionAnyWord(), SectionPos(), BlockRecord(), ou]
+    # the 64-bit word (and the record bytes) go through UnsignedLong / UnsignedByte / VarLong: their byte-level contracts -
+    # exact width, big-endian, a raise on a short or empty read instead of a smaller number - are claimed here too (the
+    # packing units execute their bodies on whole words only; seeded change C04-r10: int.from_bytes of a short read)
+    from . import c02
+    from minecraft.networking.types import UnsignedLong, UnsignedByte
+    carriers = []
+    for T in (UnsignedLong, UnsignedByte):
+        for u in (c02.IntScalar(T), c02.ScalarPrefix(T)):
+            u.prop, u.name = 'C04', 'C04.carrier.' + u.name.split('.', 1)[1]
+            carriers.append(u)
+    return [PositionSend(), PositionMonotone(), PositionAnyWord(), SectionPos(), BlockRecord(), ou] + carriers
